@@ -87,6 +87,21 @@ class PointsTo:
             out |= self.get(("elem", o))
         return out
 
+    def slot(self, objs, i):
+        """Objects in position i of the tuple-like objects `objs` (falls back to all elements)."""
+        out = set()
+        for o in objs:
+            if ("slots", o) in self.pts:
+                out |= self.get(("slot", o, i))
+            else:
+                out |= self.elems({o})
+        return out
+
+    def _set_slot(self, o, i, objs):
+        self.pts.setdefault(("slots", o), set()).add(i)
+        self._add(("slot", o, i), objs)
+        self._add(("elem", o), objs)
+
     def _alloc(self, f, node, kind):
         return ("alloc", f.qual, getattr(node, "lineno", 0), getattr(node, "col_offset", 0), kind)
 
@@ -213,9 +228,15 @@ class PointsTo:
                 o = self._alloc(f, e, "slice")
                 self._add(("elem", o), self.elems(base))
                 return {o}
+            if isinstance(e.slice, ast.Constant) and isinstance(e.slice.value, int) and e.slice.value >= 0:
+                return self.slot(base, e.slice.value)
             return self.elems(base)
         if isinstance(e, (ast.List, ast.Tuple, ast.Set)):
             o = self._alloc(f, e, "display:set" if isinstance(e, ast.Set) else "display")
+            if isinstance(e, ast.Tuple) and not any(isinstance(x, ast.Starred) for x in e.elts):
+                for i, x in enumerate(e.elts):
+                    self._set_slot(o, i, g(x))
+                return {o}
             for x in e.elts:
                 self._add(("elem", o), g(x.value if isinstance(x, ast.Starred) else x))
             return {o}
@@ -274,8 +295,10 @@ class PointsTo:
                 return self._add(("local", f.qual, t.id), objs)
         elif isinstance(t, (ast.Tuple, ast.List)):
             ch = False
-            for x in t.elts:
-                ch |= bool(self._bind_target(x.value if isinstance(x, ast.Starred) else x, self.elems(objs), f, env))
+            starred = any(isinstance(x, ast.Starred) for x in t.elts)
+            for i, x in enumerate(t.elts):
+                vals = self.elems(objs) if starred else self.slot(objs, i)
+                ch |= bool(self._bind_target(x.value if isinstance(x, ast.Starred) else x, vals, f, env))
             return ch
         elif isinstance(t, ast.Attribute):
             self.ev(t.value, f, env)
@@ -338,8 +361,12 @@ class PointsTo:
             o = self._alloc(f, c, "iter")
             t = self._alloc(f, c, "itertuple")
             self._add(("elem", o), {t})
-            for a in args:
-                self._add(("elem", t), self.elems(a))
+            if name == "enumerate":
+                self._set_slot(t, 0, set())
+                self._set_slot(t, 1, self.elems(args[0]) if args else set())
+            else:
+                for i, a in enumerate(args):
+                    self._set_slot(t, i, self.elems(a))
             return {o}
         if isinstance(c.func, ast.Attribute):
             recv = g(c.func.value)
@@ -349,7 +376,8 @@ class PointsTo:
                 if m == "items":
                     t = self._alloc(f, c, "itertuple")
                     self._add(("elem", o), {t})
-                    self._add(("elem", t), self.elems(recv))
+                    self._set_slot(t, 0, set())
+                    self._set_slot(t, 1, self.elems(recv))
                 else:
                     self._add(("elem", o), self.elems(recv))
                 return {o}
